@@ -1093,7 +1093,11 @@ std::optional<Typification> TypeAuditor::ChildTypeDebool(Cursor iter, const Inde
 
 std::optional<Typification> TypeAuditor::ChildTypeDebool(Cursor iter, const Index index, DeboolCallback onError) {
   const auto maybeResult = ChildType(iter, index);
-  if (!maybeResult.has_value() || !std::holds_alternative<Typification>(maybeResult.value())) {
+  if (!maybeResult.has_value()) {
+    return std::nullopt;
+  }
+  if (!std::holds_alternative<Typification>(maybeResult.value())) {
+    onError(ToString(maybeResult.value()));
     return std::nullopt;
   }
   const auto& result = std::get<Typification>(maybeResult.value());
